@@ -234,3 +234,16 @@ pub struct LiveSession {
 }
 
 pub static LIVE: Lazy<Mutex<BTreeMap<(String, i32), LiveSession>>> = Lazy::new(|| Mutex::new(BTreeMap::new()));
+
+static LAST_BANS: Lazy<Mutex<Option<Vec<String>>>> = Lazy::new(|| Mutex::new(None));
+
+/// Record the ban list if it differs from the last recorded one (shared by the periodic sampler
+/// and the per-statement snapshots, so that a clear-and-re-ban between two sampler ticks is not lost).
+pub fn record_bans(list: &[String]) {
+    let mut last = LAST_BANS.lock();
+    if last.as_deref() != Some(list) {
+        let seq = simcore::log::world(|| format!("bans {:?}", list));
+        HIST.lock().ban_samples.push((seq, simcore::clock::now_us(), list.to_vec()));
+        *last = Some(list.to_vec());
+    }
+}
